@@ -23,6 +23,7 @@ RULE = (
     "of the residue order and an added linear chain: no terminal state in the cyclic chain.  "
     "Non-trivial = terminal residue of a charged/variant type, > 1 chain, hidden chain end, strand "
     "or cyclic chain."
+    ' cif-table: EXHAUSTIVE mmCIF layouts with multi-character author chain ids sharing their first character (2-3 chains x with/without OXT x 3 force fields).'
     ' table: EXHAUSTIVE 32 input names x N/mid/C position x 6 force fields (PARSE also with '
     '--neutraln/--neutralc).  blank-table: EXHAUSTIVE layouts of two chains without chain ids (5 id '
     'layouts x last chain closed by TER or END only x first chain with/without OXT x 3 force '
@@ -190,6 +191,30 @@ def blank_cases():
                     a = dict(c06._context(k % 3, "LYS", "C"), id=blank[0], oxt=oxt0, ter=True, start=1)
                     b = dict(c06._context((k + 1) % 3, "ASP", "N"), id=blank[1], oxt=True, ter=ter_last, start=31, shift=[45.0, 3.0, -2.0])
                     out.append(dict(part="blank-table", desc=dict(chains=[a, b], waters=[]), ff=ff, opts=[], hidden=False, blank=blank))
+    return out
+
+
+def cif_cases():
+    """mmCIF files whose author chain ids have several characters and share the first one (AA, AB, AC): two
+    or three chains x first chains with / without OXT x three force fields x single-character control."""
+    from . import c06
+
+    out = []
+    k = 0
+    for nch in (2, 3):
+        for oxt in (True, False):
+            for multi in (True, False):
+                for ff in ("AMBER", "PARSE", "CHARMM"):
+                    k += 1
+                    chains = []
+                    for ci in range(nch):
+                        ch = dict(c06._context((k + ci) % 3, ["LYS", "ASP", "GLU"][ci], "C" if ci % 2 == 0 else "N"), id="ABC"[ci],
+                                  oxt=oxt if ci < nch - 1 else True, ter=True, start=1 + 30 * ci)
+                        if ci:
+                            ch["shift"] = [45.0 * ci, 3.0, -2.0]
+                        chains.append(ch)
+                    out.append(dict(part="cif-table", desc=dict(chains=chains, waters=[], cif=dict(multi=multi, bigseq=False)), ff=ff, opts=[],
+                                    hidden=False, blank=None))
     return out
 
 
@@ -364,6 +389,7 @@ def parts(tier):
         Part("protein", check_protein, strategy=protein_case(), budget=dict(quick=480, thorough=10000)),
         Part("table", check_protein, cases=table_cases, exhaustive=True),
         Part("blank-table", check_protein, cases=blank_cases, exhaustive=True),
+        Part("cif-table", check_protein, cases=cif_cases, exhaustive=True),
         Part("na", check_na, strategy=na_case(), budget=dict(quick=160, thorough=3000)),
         Part("big", check_big, strategy=big_case(), budget=dict(quick=128, thorough=2000)),
         Part("cyclic", check_cyclic, strategy=cyclic_case(), budget=dict(quick=64, thorough=1200)),
